@@ -4,6 +4,9 @@ theories/Spec/BV.vos theories/Spec/BV.vok theories/Spec/BV.required_vos: theorie
 theories/Spec/Eval.vo theories/Spec/Eval.glob theories/Spec/Eval.v.beautified theories/Spec/Eval.required_vo: theories/Spec/Eval.v theories/Model/Expr.vo
 theories/Spec/Eval.vio: theories/Spec/Eval.v theories/Model/Expr.vio
 theories/Spec/Eval.vos theories/Spec/Eval.vok theories/Spec/Eval.required_vos: theories/Spec/Eval.v theories/Model/Expr.vos
+theories/Spec/ReachBmc.vo theories/Spec/ReachBmc.glob theories/Spec/ReachBmc.v.beautified theories/Spec/ReachBmc.required_vo: theories/Spec/ReachBmc.v theories/Spec/SysExec.vo
+theories/Spec/ReachBmc.vio: theories/Spec/ReachBmc.v theories/Spec/SysExec.vio
+theories/Spec/ReachBmc.vos theories/Spec/ReachBmc.vok theories/Spec/ReachBmc.required_vos: theories/Spec/ReachBmc.v theories/Spec/SysExec.vos
 theories/Spec/Script.vo theories/Spec/Script.glob theories/Spec/Script.v.beautified theories/Spec/Script.required_vo: theories/Spec/Script.v theories/Spec/System.vo
 theories/Spec/Script.vio: theories/Spec/Script.v theories/Spec/System.vio
 theories/Spec/Script.vos theories/Spec/Script.vok theories/Spec/Script.required_vos: theories/Spec/Script.v theories/Spec/System.vos
@@ -13,6 +16,9 @@ theories/Spec/SysExec.vos theories/Spec/SysExec.vok theories/Spec/SysExec.requir
 theories/Spec/System.vo theories/Spec/System.glob theories/Spec/System.v.beautified theories/Spec/System.required_vo: theories/Spec/System.v theories/Spec/Eval.vo
 theories/Spec/System.vio: theories/Spec/System.v theories/Spec/Eval.vio
 theories/Spec/System.vos theories/Spec/System.vok theories/Spec/System.required_vos: theories/Spec/System.v theories/Spec/Eval.vos
+theories/Spec/Witness.vo theories/Spec/Witness.glob theories/Spec/Witness.v.beautified theories/Spec/Witness.required_vo: theories/Spec/Witness.v theories/Spec/ReachBmc.vo
+theories/Spec/Witness.vio: theories/Spec/Witness.v theories/Spec/ReachBmc.vio
+theories/Spec/Witness.vos theories/Spec/Witness.vok theories/Spec/Witness.required_vos: theories/Spec/Witness.v theories/Spec/ReachBmc.vos
 theories/Model/Analysis.vo theories/Model/Analysis.glob theories/Model/Analysis.v.beautified theories/Model/Analysis.required_vo: theories/Model/Analysis.v theories/Spec/System.vo
 theories/Model/Analysis.vio: theories/Model/Analysis.v theories/Spec/System.vio
 theories/Model/Analysis.vos theories/Model/Analysis.vok theories/Model/Analysis.required_vos: theories/Model/Analysis.v theories/Spec/System.vos
